@@ -236,3 +236,35 @@ def defaults_yield_to_falsy(form: int, vi: int, pk: bool, first_without: bool) -
             if direct[0] != "ok" or not same(direct[1], exp[1]):
                 return 0
     return 2
+
+
+
+@harness("C08", lemma="same-object-edited", cubes={"form": [0, 1, 2]}, example=dict(form=0, a1=1, a2=2, x1=3, x2=4, typed=False), timeout=300,
+         bounds="ONE long-lived wrapper (forced / default / nested) and ONE caller dictionary that is edited in place between calls "
+                "(flat key, key inside the shared section, 1 replaced by True)",
+         what="the overlay equation holds for the options as they are at each call: the result never depends on what the same "
+              "wrapper merged before")
+def same_object_edited(form: int, a1: int, a2: int, x1: int, x2: int, typed: bool) -> int:
+    P = {"S": {"Y": 7}}
+    X = _reader()
+    if form == 0:
+        W, eff = WithOptions(X, P), (lambda o: ref_overlay(o, P))
+    elif form == 1:
+        W, eff = WithDefaultOptions(X, P), (lambda o: ref_overlay(P, o))
+    else:
+        W, eff = WithOptions(WithDefaultOptions(X, {"A": 5}), P), (lambda o: ref_overlay(ref_overlay({"A": 5}, o), P))
+    o = {"A": a1, "S": {"X": x1}}
+    with quiet():
+        first = outcome(lambda: W(o))
+        k1 = outcome(lambda: sorted(W.keys(o)))
+        o["A"] = True if (typed and a1 == 1) else a2
+        o["S"]["X"] = x2
+        second = outcome(lambda: W(o))
+        copy = outcome(lambda: W(deep_copy(o)))
+    exp = _ref_reader(eff(deep_copy(o)))
+    note("after the in-place edit", o, "got", second, "with a fresh copy", copy, "expected", exp)
+    if second[0] != "ok" or not same(second[1], exp):
+        return 0
+    if copy[0] != "ok" or not same(copy[1], exp):
+        return 0
+    return 2
